@@ -98,7 +98,7 @@ COMPOSITES = {
                                 TAIL], "counts": [0, 1, 2, 3]},
     "dynlen-field-offset2": {"params": [SID, V("pre", U8), V("f", dict(
         complex="dynlenfield", count_dop=U4, count_bitpos=4, offset=2,
-        structure=dict(params=[V("x", U16)]))), TAIL], "counts": [0, 1, 2]},
+        structure=dict(params=[V("x", U16)]))), TAIL], "counts": [0, 1, 2, 15, 16]},
     "eop-field": {"params": [SID, V("pre", U8), V("f", dict(
         complex="eopfield", structure=dict(params=[V("x", U8), V("y", S8)])))], "counts": [0, 1, 2, 3]},
     "eop-field-struct": {"params": [SID, V("st", S([V("pre", U8), V("f", dict(
@@ -119,6 +119,12 @@ COMPOSITES = {
             dict(name="c3", lo=10, hi=20, structure=None)],
         default=dict(name="dflt", structure=dict(params=[V("z", U8)]))))],
         "cases": ["c1", "c2", "c3", "dflt"]},
+    "mux-zero-case": {"params": [SID, V("m", dict(
+        complex="mux", bytepos=1, key_dop=U8, cases=[
+            dict(name="c0", lo=0, hi=2, structure=dict(params=[V("a", U8)])),
+            dict(name="c1", lo=3, hi=3, structure=dict(params=[V("b", U16)]))],
+        default=dict(name="dflt", structure=dict(params=[V("z", U8)]))))],
+        "cases": ["c0", "c1", "dflt"]},
     "mux-key-bits": {"params": [SID, V("pre", U8), V("m", dict(
         complex="mux", bytepos=1, key_dop=U4, key_bitpos=4, cases=[
             dict(name="c1", lo=1, hi=1, structure=dict(params=[V("a", U8), V("b", U8)])),
@@ -136,11 +142,19 @@ TBL = {"name": "tbl", "key_dop": U8, "rows": [
     {"name": "r1", "key": 1, "structure": {"params": [V("a", U8), V("b", S8)]}},
     {"name": "r2", "key": 2, "dop": U16},
     {"name": "r7", "key": 7, "structure": {"params": [V("c", U16, bytepos=1), V("d", U8, bytepos=0)]}}]}
+TBL12 = dict(TBL, name="tbl12", key_dop=dict(dt="A_UINT32", bl=12))
+TBL4 = dict(TBL, name="tbl4", key_dop=U4)
 DTCS = [{"name": "P0001", "code": 1}, {"name": "P0500", "code": 0x500}, {"name": "PFFFF", "code": 0xFFFFFF}]
 COMPOSITES.update({
     "table": {"params": [SID, dict(kind="tablekey", name="tk", id="TK1", table=TBL),
                          dict(kind="tablestruct", name="ts", key="TK1"), TAIL],
               "rows": ["r1", "r2", "r7"]},
+    "table-key-12-bits": {"params": [SID, dict(kind="tablekey", name="tk", id="TK3", table=TBL12),
+                                     dict(kind="tablestruct", name="ts", key="TK3"), TAIL],
+                          "rows": ["r1", "r2", "r7"]},
+    "table-key-bitpos": {"params": [SID, dict(kind="tablekey", name="tk", id="TK4", table=TBL4, bitpos=4),
+                                    dict(kind="tablestruct", name="ts", key="TK4"), TAIL],
+                         "rows": ["r1", "r2"]},
     "table-row-ref": {"params": [SID, dict(kind="tablekey", name="tk", id="TK2", table=TBL, row="r1"),
                                  dict(kind="tablestruct", name="ts", key="TK2"), TAIL],
                       "rows": ["r1"]},
@@ -148,6 +162,9 @@ COMPOSITES.update({
     # arbitrary second/minute/hour/day/month/year within their documented ranges)
     "system-supplied": {"params": [SID, dict(kind="system", name="sec", sysparam="SECOND", dop=U8),
                                    dict(kind="system", name="yr", sysparam="YEAR", dop=U16), TAIL]},
+    "system-vendor": {"params": [SID, dict(kind="system", name="odo", sysparam="ODOMETER", dop=U16),
+                                 dict(kind="system", name="yr", sysparam="Year", dop=U16),
+                                 dict(kind="system", name="mo", sysparam="MONTH", dop=U8), TAIL]},
     "system-clock": {"params": [SID, dict(kind="system", name="sec", sysparam="SECOND", dop=U8),
                                 dict(kind="system", name="hr", sysparam="HOUR", dop=U8),
                                 dict(kind="system", name="dy", sysparam="DAY", dop=U8),
@@ -201,6 +218,19 @@ RESPONSES_EXTRA = {
                                 dict(kind="nrcconst", name="nrc", type={"dt": "A_UINT32", "bl": 8},
                                      values=[0x11, 0x31]), V("extra", U8)], "request_len": [1, 2]},
 }
+def _nrc(bl, bitpos=0):
+    return {"params": [C("sid", 0x7F, bytepos=0), dict(kind="matchreq", name="rsid", rqpos=0, len=1),
+                       dict(kind="nrcconst", name="nrc", type={"dt": "A_UINT32", "bl": bl},
+                            values=[1, 2], **({"bitpos": bitpos} if bitpos else {})),
+                       V("extra", U8)], "request_len": [1]}
+
+
+# negative responses whose NRC-CONST does not end on a byte boundary: the encoder skips the
+# started byte, the static length counts it
+RESPONSES_EXTRA.update({"nrc-4-bits": _nrc(4), "nrc-12-bits": _nrc(12), "nrc-8-bits-at-4": _nrc(8, 4)})
+# extents only (C08): an NRC-CONST is left zero by the encoder, such a PDU does not decode
+LENGTH_ONLY_RESPONSES = {k: RESPONSES_EXTRA[k] for k in ("nrc-response", "nrc-4-bits", "nrc-12-bits",
+                                                         "nrc-8-bits-at-4")}
 RESPONSES = {
     "matching-request": {"params": [C("sid", 0x62, bytepos=0),
                                     dict(kind="matchreq", name="echo", rqpos=1, len=2),
@@ -507,7 +537,10 @@ def ref_dop(p, pos, bitpos, d, v, at_end, env):
                 key, st = c["lo"], c.get("structure")
         if key is None:
             if d.get("default") and d["default"]["name"] == cname:
-                key, st = 0, d["default"].get("structure")
+                # any key that no case claims selects the default case; the smallest one is used
+                key = next(k for k in range(1 << d["key_dop"]["bl"])
+                           if not any(c["lo"] <= k <= c["hi"] for c in d["cases"]))
+                st = d["default"].get("structure")
             else:
                 raise odxref.Reject("unknown case")
         kd = d["key_dop"]
@@ -764,8 +797,14 @@ def _run_composite(sx, cfg, env, obj, spec, prop, shape, vals, renv, kwargs):
         sx.require(core.frozen(pdu)[:len(pre)] == core.frozen(pre), "coded-const-prefix-is-a-prefix")
         req_names = sorted(p.short_name for p in obj.required_parameters)
         want_req = sorted(p["name"] for p in spec["params"]
-                          if p["kind"] in ("value", "tablestruct") and p.get("default") is None)
+                          if (p["kind"] in ("value", "tablestruct") and p.get("default") is None) or
+                          (p["kind"] == "system" and p["sysparam"] not in ODX_SYSPARAMS))
         sx.require(req_names == want_req, "required-parameters-are-the-value-parameters-without-default")
+
+
+# ASAM ODX 2.2, 7.3.5.4 table 5: the SYSPARAM names a tester must know (spelled exactly so)
+ODX_SYSPARAMS = ("TIMESTAMP", "SECOND", "MINUTE", "HOUR", "TIMEZONE", "DAY", "WEEK", "MONTH", "YEAR",
+                 "CENTURY", "TESTERID", "USERID")
 
 
 def run_required(sx, cfg, env):
@@ -811,6 +850,53 @@ def run_constant(sx, cfg, env):
     sx.require(ok == bool(c == prm["value"]), "non-free-parameter-only-accepts-its-constant")
 
 
+BAD_SELECTORS = {
+    "mux": [{"m": ("nope", {})}, {"m": ("c1", {})}, {"m": ("c1", {"a": 1, "zzz": 2})}, {"m": "c1"},
+            {"m": ("c2", {"b": 70000})}, {"m": (None, {})}, {"m": ("c1", None)}],
+    "table": [{"ts": ("nope", 1)}, {"ts": ("r1", {"a": 1})}, {"ts": ("r2", {"x": 1})},
+              {"ts": "r1"}, {"ts": ("r1", {"a": 1, "b": 2}), "tk": "r2"}, {"ts": ("r2", 70000)}],
+    "static-field": [{"f": [{"x": 1, "y": 2}]}, {"f": "ab"}, {"f": [1, 2]},
+                     {"f": [{"x": 1, "y": 2}, {"x": 1}]}],
+    "dtc": [{"d": "NOPE"}, {"d": "P0500"}, {"d": 2}, {"d": None}],
+}
+
+
+def run_badselector(sx, cfg, env):
+    """C04, concrete operands: unknown multiplexer cases / table rows / DTC names, incomplete
+    items, contradictory keys.  Outcome: OdxError, or a PDU that decodes to what was asked for."""
+    from odxtools.exceptions import OdxError
+    obj, spec = env["obj"], env["spec"]
+    sel = sx.int("sel", 0, 0)
+    sx.assume(sel == 0)
+    for i, vals in enumerate(BAD_SELECTORS[cfg["name"]]):
+        try:
+            pdu = obj.encode(**vals)
+        except OdxError:
+            sx.cover("rejected")
+            continue
+        except Exception as e:  # noqa: BLE001
+            sx.observe(f"case{i}", f"{vals!r}:{type(e).__name__}")
+            sx.require(False, "rejection-uses-the-library-error-type")
+            continue
+        sx.cover("accepted")
+        try:
+            dec = obj.decode(bytes(pdu))
+            same = True
+            for k, v in vals.items():
+                g = dec.get(k)
+                if hasattr(g, "trouble_code"):
+                    same = same and (g.short_name == v or g.trouble_code == v)
+                else:
+                    same = same and (g == v or (isinstance(v, tuple) and isinstance(g, tuple)
+                                                 and g[0] == v[0]))
+        except Exception:  # noqa: BLE001
+            same = False
+        sx.observe(f"case{i}", f"{vals!r}->{bytes(pdu).hex()}")
+        sx.require(bool(same), "accepted-selector-comes-back")
+
+
+BADSELECTOR_HARNESS = {"build": build_composite, "run": run_badselector, "width": 80,
+                       "must_cover": ["rejected"]}
 COMPOSITE_HARNESS = {
     "build": build_composite, "run": run_composite, "width": 80, "must_cover": ["accepted"],
     "limits": {"quick": explore.Limits(max_paths=3000, wall_s=200),
@@ -842,10 +928,16 @@ def configs_for(prop, tier, seed):
                             "what": what, "name": name, "shape": sh, "prop": prop,
                             "build": {"what": what, "name": name}})
     if prop == "C08":
+        for name, spec in LENGTH_ONLY_RESPONSES.items():
+            for sh in shapes(spec):
+                sid = "-".join(f"{k}{v}" for k, v in sh.items()) or "x"
+                out.append({"id": f"composite/response/{name}/{sid}", "harness": "composite",
+                            "what": "response", "name": name, "shape": sh, "prop": prop,
+                            "build": {"what": "response", "name": name}})
         for name, spec in COMPOSITES.items():
             sh = shapes(spec)[-1]
             for p in spec["params"]:
-                if p["kind"] in ("value", "lengthkey", "tablestruct"):
+                if p["kind"] in ("value", "lengthkey", "tablestruct", "system"):
                     out.append({"id": f"required/{name}/drop-{p['name']}", "harness": "required",
                                 "what": "request", "name": name, "shape": sh, "drop": p["name"],
                                 "prop": prop, "build": {"what": "request", "name": name}})
